@@ -81,3 +81,10 @@ ENTRIES += [
     N('codec-lookup-combined-handler', "    except LookupError:\n        # A registered codec that is not a text encoding (hex, zlib, ...)\n        return False\n    except UnicodeError:", "    except LookupError as error:\n        _ = error\n        return False\n    except UnicodeError:", STR),
     N('unix-perm-length-guard-lt', "    if len(text) != 9:\n        return 0", "    if len(text) < 9 or len(text) > 9:\n        return 0", LS),
 ]
+
+PA = 'wpull/path.py'
+ENTRIES += [
+    B('regress-windows-trailing-char', "            new_filename = '{0}%{1:02X}'.format(\n                new_filename[:-1], ord(new_filename[-1])\n            )", "            new_filename = '{0}{1:02X}'.format(\n                new_filename[:-1], new_filename[-1]\n            )", 'C09-D1', PA),
+    B('content-disposition-empty-group', "    match = re.search(r'filename\\s*=\\s*(.+)', text, re.IGNORECASE)", "    match = re.search(r'filename\\s*=\\s*(.*)', text, re.IGNORECASE)", 'C09-D1', PA),
+    N('windows-trailing-char-percent-format', "            new_filename = '{0}%{1:02X}'.format(\n                new_filename[:-1], ord(new_filename[-1])\n            )", "            new_filename = new_filename[:-1] + '%%%02X' % ord(new_filename[-1])", PA),
+]
